@@ -21,6 +21,10 @@ type Val struct {
 
 var tyWide = types.NewNamed(types.NewTypeName(0, nil, "wide", nil), types.Typ[types.Int64], nil)
 
+// tyMath is the sort of unbounded mathematical integers in contracts (instants, ghost counters),
+// available in both arithmetic modes.
+var tyMath = types.NewNamed(types.NewTypeName(0, nil, "mathint", nil), types.Typ[types.Int64], nil)
+
 const refDecl = `(declare-datatypes ((Ref 0)) (((nil) (obj (objid Int)) (loc (locid Int)) (glob (globid Int)) (fld (fbase Ref) (fidx Int)) (elem (ebase Ref) (eidx IDX)))))`
 
 // Smt holds everything that makes up the text of the queries of one function.
@@ -158,7 +162,7 @@ func (s *Smt) declareFun(name string, args []string, ret string) {
 }
 
 func isInteger(t types.Type) bool {
-	if t == tyWide {
+	if t == tyWide || t == tyMath {
 		return true
 	}
 	b, ok := t.Underlying().(*types.Basic)
@@ -212,6 +216,9 @@ func structKey(st *types.Struct) string {
 func (s *Smt) sortOf(t types.Type) string {
 	if t == tyWide {
 		return s.intSortW(128)
+	}
+	if t == tyMath {
+		return "Int"
 	}
 	switch u := t.Underlying().(type) {
 	case *types.Basic:
@@ -273,6 +280,9 @@ func unsupported(msg string) unsupportedErr { return unsupportedErr{msg} }
 func (s *Smt) zero(t types.Type) string {
 	if t == tyWide {
 		return s.intLit(big.NewInt(0), 128)
+	}
+	if t == tyMath {
+		return "0"
 	}
 	switch u := t.Underlying().(type) {
 	case *types.Basic:
